@@ -97,6 +97,12 @@ func (g *c09Gen) callee(dir string, withReturn bool) (string, string) {
 		g.labels["callee-rebinds-context"] = true
 		body = append(body, &mj.Node{K: "range", E: mj.Call("slice", mj.Str("e1"), mj.Str("e2")), Body: []*mj.Node{mj.Text("<"), mj.Print(mj.Dot()), mj.Text(">")}})
 	}
+	if g.n(0, 2, "calleeSafeWriter") == 0 {
+		// output that goes through a SafeWriter command is output like any other: in place for include, discarded by exec
+		g.labels["callee-prints-through-safewriter"] = true
+		w := []string{"raw", "unsafe", "safeHtml"}[g.n(0, 2, "calleeWriter")]
+		body = append(body, mj.Text("(sw:"), mj.Print(mj.Pipe(mj.Str("<"+w+"&>"), w)), mj.Text(")"))
+	}
 	if g.n(0, 1, "calleeBlock") == 0 {
 		g.labels["callee-defines-block"] = true
 		body = append(body, &mj.Node{K: "block", Name: g.id("calleeBlk"), Body: []*mj.Node{mj.Text("{callee block}")}})
